@@ -1,5 +1,6 @@
 import BigtreeModel.Proto
 import BigtreeModel.DagStore
+import BigtreeModel.DagBridge
 /-! Driver handler for property C10 (also used for the DAGNode class of C02 / C20).
 
 One line = one whole history:
@@ -17,7 +18,11 @@ ops (`<f>` ∈ `none|pre|post`; `<m>` = node id or `j<k>` for the k-th non-node 
   reads it as the list `L<m,m,…>` — it sees equal lists, never shared ones.
 
 Output: for each op `<ok|rej> <i>:<parents>/<children> …` (every node, ids ascending, lists in
-store order), ops joined by ` ; `. -/
+store order), ops joined by ` ; `.
+
+Optional header key `iter=<v>` (tie of the bridge `DagStore.toDag`, `BigtreeProofs/Properties/DagBridge.lean`):
+after the history, ` ; iter <p>><c>,<p>><c>,…` is appended — `Dag.dagIter (toDag s) v` on the final store
+`s`, in the order yielded (`-` when nothing is yielded); `v` must be a node of the final store. -/
 namespace Drv.C10
 open Proto DagStore
 
@@ -108,6 +113,15 @@ def runShow (asrt : Bool) : DStore → List Tok → Option (List String)
       (runShow asrt r.1 ops).map fun rest => (showOutcome r.2 ++ " " ++ dump r.1) :: rest
     else none
 
+/-- the store the history ends in (the steps of `runShow`) -/
+def runFinal (asrt : Bool) : DStore → List Tok → DStore
+  | s, [] => s
+  | s, .noop :: ops => runFinal asrt s ops
+  | s, .op op :: ops => runFinal asrt (step asrt s op).1 ops
+
+def showPairs (l : List (Nat × Nat)) : String :=
+  if l.isEmpty then "-" else ",".intercalate (l.map fun e => toString e.1 ++ ">" ++ toString e.2)
+
 def splitAtTok (toks : List String) (t : String) : List String × List String :=
   (toks.takeWhile (· ≠ t), (toks.dropWhile (· ≠ t)).drop 1)
 
@@ -126,7 +140,13 @@ def handle (toks : List String) : String :=
     if ¬ toks.contains "ops=" then none
     let ops ← opToks.mapM parseTok
     let outs ← runShow asrt (init n fun i => names.getD i []) ops
-    pure (" ; ".intercalate outs)
+    let tail ← match kv hd "iter" with
+      | none => some ""
+      | some t => do
+        let v ← t.toNat?
+        let fin := runFinal asrt (init n fun i => names.getD i []) ops
+        if v < fin.n then some (" ; iter " ++ showPairs (Dag.dagIter (toDag fin) v)) else none
+    pure (" ; ".intercalate outs ++ tail)
   r.getD "bad-op"
 
 end Drv.C10
